@@ -45,13 +45,19 @@ def lengths : List Item → List Nat
   | .dot :: rest => lengths rest
   | .word n :: rest => n :: lengths rest
 
+/-- one term of the sum: `(len % 10) as f64 * 10f64.powi(exponent - idx)`; repaired code: a zero
+    digit contributes `0.0` whatever its weight (`0 * inf` would be NaN) -/
+def digitTerm (exponent : Int) (idx len : Nat) : N :=
+  if len % 10 = 0 then ofNat 0
+  else mul (ofNat (len % 10)) (powi (ofInt 10 : N) (exponent - Int.ofNat idx))
+
 /-- `Σ (len % 10) as f64 * 10f64.powi(exponent - idx)`, summed left to right from `-0.0`
     (`impl Sum for f64`). -/
 def sumDigits (exponent : Int) : List Nat → Nat → N → N
   | [], _, acc => acc
   | len :: rest, idx, acc =>
     sumDigits exponent rest (idx + 1)
-      (add acc (mul (ofNat (len % 10)) (powi (ofInt 10 : N) (exponent - Int.ofNat idx))))
+      (add acc (digitTerm exponent idx len))
 
 def computeValue (elems : List PoeticElem) : Outcome Unit N :=
   let its := items elems
